@@ -116,7 +116,7 @@ func BuildIndex(kind, path string, rows []Row) ([]uint32, error) {
 	case "big":
 		tmp := path + ".tmpdb"
 		defer os.Remove(tmp)
-		tdb, err := bbolt.Open(tmp, 0o600, nil)
+		tdb, err := simrt.BoltOpened(bbolt.Open(tmp, 0o600, nil))
 		if err != nil {
 			return ids, err
 		}
